@@ -409,6 +409,13 @@ func goEpilogue(s *Spec, o RenderOpts) string {
 		b.WriteString("func VInit(c interface{}) { ParserInit() }\n")
 		b.WriteString("func VParse(c interface{}) (interface{}, bool) {\n\tr := Parser(\"\")\n\tif r == nil {\n\t\treturn nil, false\n\t}\n\treturn " + ret + ", true\n}\n")
 	}
+	b.WriteString("func VConsts() map[string]int {\n\treturn map[string]int{\n")
+	for _, t := range s.Terms {
+		if t.Name != "" {
+			b.WriteString(fmt.Sprintf("\t\t%q: %s,\n", t.Name, t.Name))
+		}
+	}
+	b.WriteString("\t}\n}\n")
 	b.WriteString("func VAction(s, a int) int { return (&StateSym{Yystate: s}).Action(a) }\n")
 	b.WriteString("func VTranslate(c int) int { return translate(c) }\n")
 	b.WriteString("func VTrace(on bool) { IsTrace = on }\n")
@@ -458,6 +465,18 @@ func tsEpilogue(s *Spec, o RenderOpts) string {
 		fmt.Fprintf(&b, "\t\treturn %s\n", key)
 	}
 	b.WriteString("\t}\n\treturn -1\n}\n")
+	b.WriteString("function VConsts() {\n\treturn {")
+	first := true
+	for _, t := range s.Terms {
+		if t.Name != "" {
+			if !first {
+				b.WriteString(", ")
+			}
+			first = false
+			b.WriteString(t.Name + ": " + t.Name)
+		}
+	}
+	b.WriteString("}\n}\n")
 	return b.String()
 }
 
